@@ -41,7 +41,7 @@ ASSUMPTIONS = ["git 2.x in PATH, identity and dates fixed by the driver", "a kil
                "a fault injected into `worktree remove` or `branch -D` themselves makes restoration impossible by construction; only exception masking is judged there (a single fault in `worktree prune` is judged fully)"]
 MANIFEST = {
     "category": "fault_enumeration",
-    "text": "Exhaustive single-fault (quick) / pair-of-faults (thorough) injection at every interception point (git subprocess calls, temporary directory, finder, loader stages, every extension event, diff items) of load_git / check on 10 scripted repository histories (incl. user branches named like the temporary ones), with full repository + TMPDIR snapshot comparison (single faults inside `worktree prune` included) usability checks of the returned objects and the requirement that the returned tree is the one at the reference, on the real _griffe.git / loader / cli code. One more history: the user's own linked worktrees are named like the requested references. Further histories: the package directory is a committed symbolic link; one operation performs three loads in a row (tag, branch, tag again).",
+    "text": "Exhaustive single-fault (quick) / pair-of-faults (thorough) injection at every interception point (git subprocess calls, temporary directory, finder, loader stages, every extension event, diff items) of load_git / check on 10 scripted repository histories (incl. user branches named like the temporary ones), with full repository + TMPDIR snapshot comparison (single faults inside `worktree prune` included) usability checks of the returned objects and the requirement that the returned tree is the one at the reference, on the real _griffe.git / loader / cli code. One more history: the user's own linked worktrees are named like the requested references. Further histories: the package directory is a committed symbolic link; one operation performs three loads in a row (tag, branch, tag again). Interruptions that arrive as a clean-up command returns (the command did its job) are placed at every clean-up command, alone and two in a row, and judged for leaks.",
     "note": "Complete for the histories, operations and interception points listed; interruption is modelled as KeyboardInterrupt at an interception point.",
     "technique": "fault enumeration: stateless choice-point exploration of fault placements (deviation-bounded) on the real git/loader code with repository snapshot oracle",
 }
